@@ -23,7 +23,7 @@ from engine.util import kwarg, is_self_attr
 from .pairing_rules import check_coindex, pairing
 from .c08 import _parallel_sites, _strip_progress
 from .common import resolve_call
-from .sem import truth_of, expander, ctext, want, xt, bind, calls, paths, stmt_of, defs_texts, guarded_values, gather_alternatives, same_selection, RAISE
+from .sem import truth_of, expander, ctext, want, xt, bind, calls, paths, stmt_of, defs_texts, guarded_values, gather_alternatives, same_selection, RAISE, conds_at
 
 RULES = {
     "C17.a": "resampling indices: randint(low=0, high=X.shape[0] (exclusive), size) — every row eligible, none out of range (affine equality)",
@@ -186,6 +186,50 @@ def check_b(ck, repo):
                 zipped = True
         idx_ok = zipped or (roles.get("index") is None) or bs.get(roles["index"]) == lv
         ok = idx_ok and E is not None and bs.get(pX) == fit.named_params[1] and bs.get(py_) == fit.named_params[2] and bs.get(psw) == fit.named_params[3] and roles.get("alpha") is not None and ex.text(b[roles["alpha"]], fit, stmt_of(c)) == "self.alpha"
+        # the rows the tasks resample are the caller's: every row stays eligible
+        n_before = len(ck.obs)
+        for prm_, fname in ((pX, fit.named_params[1]), (py_, fit.named_params[2]), (psw, fit.named_params[3])):
+            a_ = b.get(prm_)
+            if a_ is None:
+                continue
+            alts_ = list(guarded_values(repo, fit, a_, stmt_of(c))) or [(frozenset(), a_, None)]
+            # a parameter rebound on some branch before the dispatch: each rebinding is a value the task may receive
+            if isinstance(a_, ast.Name):
+                for st_ in own_nodes(fit.node):
+                    if isinstance(st_, ast.Assign) and st_.lineno < stmt_of(c).lineno:
+                        for t_ in st_.targets:
+                            if isinstance(t_, ast.Name) and t_.id == a_.id:
+                                alts_.append((frozenset(conds_at(repo, fit, st_)), ex.norm_expr(st_.value, fit, st_), st_))
+                            elif isinstance(t_, (ast.Tuple, ast.List)) and isinstance(st_.value, (ast.Tuple, ast.List)) and len(t_.elts) == len(st_.value.elts):
+                                for te_, ve_ in zip(t_.elts, st_.value.elts):
+                                    if isinstance(te_, ast.Name) and te_.id == a_.id:
+                                        alts_.append((frozenset(conds_at(repo, fit, st_)), ex.norm_expr(ve_, fit, st_), st_))
+                            elif isinstance(t_, (ast.Tuple, ast.List)) and any(isinstance(te_, ast.Name) and te_.id == a_.id for te_ in t_.elts):
+                                k_ = [i for i, te_ in enumerate(t_.elts) if isinstance(te_, ast.Name) and te_.id == a_.id][0]
+                                alts_.append((frozenset(conds_at(repo, fit, st_)), ast.Subscript(value=ex.norm_expr(st_.value, fit, st_), slice=ast.Constant(k_), ctx=ast.Load()), st_))
+            for fc_, v_, _s in alts_:
+                core = v_
+                while True:
+                    if isinstance(core, ast.Call) and src_of(core.func).split(".")[-1] in ("check_array", "asarray", "array", "ascontiguousarray", "asanyarray", "column_or_1d", "_check_sample_weight") and core.args:
+                        core = core.args[0]
+                    elif isinstance(core, ast.Call) and isinstance(core.func, ast.Attribute) and core.func.attr in ("astype", "copy", "ravel", "to_numpy") :
+                        core = core.func.value
+                    elif isinstance(core, ast.Attribute) and core.attr == "values":
+                        core = core.value
+                    elif isinstance(core, ast.Subscript) and isinstance(core.slice, ast.Constant) and isinstance(core.value, ast.Call) and src_of(core.value.func).split(".")[-1] == "check_X_y" and isinstance(core.slice.value, int) and core.slice.value < len(core.value.args):
+                        core = core.value.args[core.slice.value]
+                    else:
+                        break
+                if isinstance(core, ast.Name) and core.id == fname:
+                    continue
+                if isinstance(core, ast.Constant) and core.value is None and fname == fit.named_params[3]:
+                    continue
+                if isinstance(core, ast.Subscript) and isinstance(core.value, ast.Name) and core.value.id == fname:
+                    ck.violated("C17.b", fit, inner, f"the task receives {xt(v_)[:70]} for {fname}" + (f" when {sorted(fc_)[:2]}" if fc_ else "") + f": a selection of the caller's rows, so n is no longer the number of training rows and the rows left out can never be drawn")
+                else:
+                    ck.unknown("C17.b", fit, inner, f"the task receives {xt(v_)[:70]} for {fname}: not the caller's array in a form this analysis follows")
+        if len(ck.obs) == n_before:
+            ck.holds("C17.b", fit, "X, y, sample_weight handed to the tasks", "the caller's arrays on every path (no row is removed before the resampling)")
         ck.verdict(ok, "C17.b", fit, inner, "task i trains estimators[i] on a resample of (X, y, sample_weight) of relative size alpha", f"task arguments are {bs}")
         okc = False
         ds = defs_texts(repo, fit, E) if E else []
@@ -311,6 +355,7 @@ def run(ck):
 
 _F = "mlinsights/mlmodel/interval_regressor.py"
 WITNESSES = [
+    {"name": "zero-weight-rows-dropped-before-dispatch", "file": _F, "rule": "C17.b", "old": "        def _fit_piecewise_estimator(i, est, X, y, sample_weight, alpha):\n", "new": "        if sample_weight is not None:\n            keep = sample_weight > 0\n            X, y, sample_weight = X[keep], y[keep], sample_weight[keep]\n\n        def _fit_piecewise_estimator(i, est, X, y, sample_weight, alpha):\n"},
     {"name": "predict-all-buffer-dtype-of-X", "file": _F, "rule": "C17.b", "old": "container = numpy.empty((X.shape[0], len(self.estimators_)))", "new": "container = numpy.empty((X.shape[0], len(self.estimators_)), dtype=X.dtype)"},
     {"name": "predict-all-buffer-float32", "file": _F, "rule": "C17.b", "old": "container = numpy.empty((X.shape[0], len(self.estimators_)))", "new": "container = numpy.zeros((X.shape[0], len(self.estimators_)), dtype=numpy.float32)"},
     {"name": "high-minus-one", "file": _F, "rule": "C17.a", "old": "numpy.random.randint(0, X.shape[0], new_size)", "new": "numpy.random.randint(0, X.shape[0] - 1, new_size)"},
